@@ -64,4 +64,5 @@ def run(chk):
                         're-parse clause skipped when an edit leaves a command without any argument (its name may merge with what follows)']
 
 
-replay = c05.replay
+def replay(chk, path):
+    return c05.replay(chk, path, 'C14')
